@@ -16,6 +16,7 @@ mod ops_drop;
 mod ops_flags;
 mod ops_raw;
 mod ops_ringflags;
+mod ops_sqebytes;
 mod ops_sqpoll;
 mod ops_sym;
 // mod ring;            // <-- ring phase: uncomment / add
@@ -31,6 +32,7 @@ fn main() {
             "ops" => ops::replay(&v, &mut r),
             "drop" => ops_drop::replay(&v, &mut r),
             "ringflags" => ops_ringflags::replay(&v, &mut r),
+            "sqebytes" => ops_sqebytes::replay(&v, &mut r),
             // "ring" => ring::replay(&v, &mut r),      // <-- ring phase
             other => panic!("replay value of unknown phase {other}"),
         }
@@ -44,6 +46,7 @@ fn main() {
     let r = match phase.as_str() {
         "ops" => ops::run(&args),
         "drop" => ops_drop::run(&args),
+        "sqebytes" => ops_sqebytes::run(&args), // C18 keys; meant for the small binary in --profile o0 as well
         "ringflags" => ops_ringflags::run(&args), // reports under C17 keys (hand-over on real rings)
         // "ring" => ring::run(&args),                  // <-- ring phase
         _ => panic!("unknown phase {phase} (ops | drop | ringflags)"),
